@@ -161,14 +161,40 @@ impl Env {
 pub struct ProbeRec {
     pub id: u32,
     pub state: St,
+    /// order-insensitive fingerprint of `state` taken at capture time (M-snap)
+    pub fp: String,
+}
+
+/// Order-insensitive rendering of everything a state holds: substitution, constraint store
+/// (including the internals of every constraint object), domain store, user state.
+pub fn state_fingerprint(state: &St) -> String {
+    let mut parts: Vec<String> = vec![];
+    for (k, v) in state.smap_ref().iter() {
+        parts.push(format!("S {:?} => {:?}", k, v));
+    }
+    for c in state.cstore_ref().iter() {
+        parts.push(format!("C {:?}", c));
+    }
+    for (k, d) in state.dstore_ref().iter() {
+        parts.push(format!("D {:?} => {:?}", k, d));
+    }
+    parts.sort();
+    parts.push(format!("U with={} take={} tags={:?} exts={}", state.user_state.with, state.user_state.take, state.user_state.tags, state.user_state.exts.len()));
+    parts.join("\n")
 }
 
 thread_local! {
+    /// M-proj: (observations, mismatch descriptions)
+    pub static PROJ_LOG: RefCell<(u64, Vec<String>)> = RefCell::new((0, Vec::new()));
     pub static PROBES: RefCell<Vec<ProbeRec>> = RefCell::new(Vec::new());
     pub static PROBE_KEEP: RefCell<bool> = RefCell::new(false);
     pub static PROBE_COUNT: RefCell<u64> = RefCell::new(0);
     /// Optional hook run at each probe with (id, state); may veto (return false => branch fails).
     pub static PROBE_HOOK: RefCell<Option<Rc<dyn Fn(u32, &St) -> bool>>> = RefCell::new(None);
+}
+
+pub fn take_proj_log() -> (u64, Vec<String>) {
+    PROJ_LOG.with(|l| std::mem::take(&mut *l.borrow_mut()))
 }
 
 pub fn take_probes() -> Vec<ProbeRec> {
@@ -392,7 +418,32 @@ impl Builder {
                         for (v, p) in vs2.iter().zip(projected.iter()) {
                             env3.map.insert(*v, p.clone());
                         }
-                        let body: Vec<Vec<M>> = gs2.iter().map(|g| vec![this.goal::<M>(&mut env3, g)]).collect();
+                        let mut body: Vec<Vec<M>> = gs2.iter().map(|g| vec![this.goal::<M>(&mut env3, g)]).collect();
+                        // M-proj: at the start and at the end of the body (the end may run much
+                        // later, after the body was suspended and other states reached the same
+                        // project goal) the projected terms must still denote the current value
+                        // of the original variables in the state that runs the body.
+                        let pairs: Vec<(L, L)> = vs2.iter().map(|v| env2.get(*v)).zip(projected.iter().cloned()).collect();
+                        let mon = |site: &'static str, pairs: Vec<(L, L)>| -> M {
+                            FnGoal::new::<M>(Box::new(move |_solver: &Solver<U, E>, state: St| {
+                                for (orig, proj) in pairs.iter() {
+                                    let a = state.smap_ref().walk_star(orig);
+                                    let b = state.smap_ref().walk_star(proj);
+                                    let ok = a == b;
+                                    PROJ_LOG.with(|l| {
+                                        let mut l = l.borrow_mut();
+                                        l.0 += 1;
+                                        if !ok && l.1.len() < 5 {
+                                            l.1.push(format!("at body {}: projected term {} (walk* {}) but the variable's value in this state is {}", site, proj, b, a));
+                                        }
+                                    });
+                                }
+                                Stream::unit(Box::new(state))
+                            }))
+                            .cast_into()
+                        };
+                        body.insert(0, vec![mon("start", pairs.clone())]);
+                        body.push(vec![mon("end", pairs)]);
                         let refs: Vec<&[M]> = body.iter().map(|c| &c[..]).collect();
                         InferredConj::from_conjunctions(&refs).cast_into()
                     }),
@@ -503,7 +554,8 @@ impl Builder {
                         None => true,
                     });
                     if PROBE_KEEP.with(|k| *k.borrow()) {
-                        PROBES.with(|p| p.borrow_mut().push(ProbeRec { id, state: state.clone() }));
+                        let fp = state_fingerprint(&state);
+                        PROBES.with(|p| p.borrow_mut().push(ProbeRec { id, state: state.clone(), fp }));
                     }
                     if ok {
                         Stream::unit(Box::new(state))
